@@ -97,8 +97,10 @@ def compile_src(src, opt=0, dbg=False):
     return Compiler('qvm', optimization_level=opt, debug_info=dbg).compile(src)
 
 
-def try_compile(src, opt=0, dbg=False, want_bytes=True, want_listing=False):
-    """-> ('ok', code, bytes) | ('syntax'|'compile', exc) | ('internal', exc)"""
+def try_compile(src, opt=0, dbg=False, want_bytes=True, want_listing=False, _retry=True):
+    """-> ('ok', code, bytes) | ('syntax'|'compile', exc) | ('internal', exc)
+    A RecursionError is the interpreter's limit on the depth of pyparsing's recursion, not an answer of the compiler (the
+    properties bound nesting): the compilation is repeated once with room to spare."""
     try:
         code = compile_src(src, opt, dbg)
         b = bytes(code) if want_bytes else None
@@ -110,6 +112,14 @@ def try_compile(src, opt=0, dbg=False, want_bytes=True, want_listing=False):
     except CompileError as e:
         return ('compile', e, None)
     except RecursionError as e:
+        if _retry:
+            import sys
+            lim = sys.getrecursionlimit()
+            sys.setrecursionlimit(max(lim, 40000))
+            try:
+                return try_compile(src, opt, dbg, want_bytes, want_listing, _retry=False)
+            finally:
+                sys.setrecursionlimit(lim)
         return ('internal', e, None)
     except Exception as e:  # noqa: BLE001  (this is exactly what C06 looks for)
         return ('internal', e, None)
